@@ -53,6 +53,8 @@ def main(argv):
     try:
         env = dict(os.environ, PYTHONPATH=d + '/src')
         t = sh(['/venv/bin/python', '-m', 'pytest', '-q', '-p', 'no:cacheprovider', '-n', '8'], cwd=d, env=env)
+        if t.returncode != 0:      # the suite is occasionally flaky under machine load: one retry, serially
+            t = sh(['/venv/bin/python', '-m', 'pytest', '-q', '-p', 'no:cacheprovider'], cwd=d, env=env)
         meta['repo_tests_with_patch'] = (t.stdout.strip().splitlines() or [''])[-1]
         meta['repo_tests_pass_with_patch'] = t.returncode == 0
         shutil.copy(os.path.join(dest, 'demo.py'), os.path.join(d, 'demo.py'))
